@@ -18,7 +18,7 @@ theorem SInv.of_rel {st : St} (inv : SInv gh st) {t' : Tree} (hinv : TInv t') (h
     · rintro ⟨w', hl'⟩; obtain ⟨w, hl, _⟩ := hrel.live_back hl'; exact ⟨w, hl⟩
     · rintro ⟨w, hl⟩; obtain ⟨w', hl', _⟩ := hrel.live hl; exact ⟨w', hl'⟩
   refine ⟨⟨hinv, by simp only; rw [hrel.1]; exact inv.wx_size, ?_, List.nodup_nil, by intro i hi; simp at hi, ?_,
-    ⟨inv.pens.rc, inv.pens.ex, inv.pens.pos⟩, ?_, ?_, ?_, inv.simple⟩, ?_⟩
+    ⟨inv.pens.rc, inv.pens.ex, inv.pens.pos⟩, ?_, ?_, ?_, inv.simple⟩, ?_, fun hg => (live_iff 0).2 (inv.glive hg)⟩
   rotate_right
   · intro i w' hl'
     obtain ⟨w, hl, _⟩ := hrel.live_back hl'
@@ -412,7 +412,8 @@ theorem newWin_ok {st : St} (inv : SInv gh st) {p : Nat} {pw : Win} (hp : LiveW 
       by_cases h0q : (0 : Nat) = q
       · subst h0q; exact ⟨_, hqI⟩
       · exact ⟨x, by rw [G]; simp [h0q, h0]; exact hl.1, hl.2⟩
-  refine ⟨⟨invI, ?_, ?_, List.nodup_nil, by intro i hi; simp at hi, ?_, ⟨?_, ?_, inv.pens.pos⟩, ?_, ?_, ?_, inv.simple⟩, ?_⟩
+  refine ⟨⟨invI, ?_, ?_, List.nodup_nil, by intro i hi; simp at hi, ?_, ⟨?_, ?_, inv.pens.pos⟩, ?_, ?_, ?_, inv.simple⟩, ?_,
+    fun hg => live0.2 (inv.glive hg)⟩
   rotate_right
   · intro i x' hl'
     by_cases hi : i = st.tree.wins.size
@@ -527,7 +528,10 @@ theorem SInv.of_tree {st : St} (inv : SInv gh st) {t' : Tree} (hinv : TInv t') (
     (h : ∀ (i : Nat) (w : Win), st.tree.wins[i]? = some w →
       ∃ w', t'.wins[i]? = some w' ∧ w'.freed = w.freed ∧ (w.freed = false → w'.refcount = w.refcount)) :
     SInv gh { st with tree := t' } := by
-  refine ⟨inv.toSInvB.of_tree hinv hsz ?_, ?_⟩
+  refine ⟨inv.toSInvB.of_tree hinv hsz ?_, ?_, fun hg => by
+    obtain ⟨r, hr⟩ := inv.glive hg
+    obtain ⟨w', hw', hf, _⟩ := h 0 r hr.1
+    exact ⟨w', hw', by rw [hf]; exact hr.2⟩⟩
   · intro i w hw
     obtain ⟨w', hw', hf, hr⟩ := h i w hw
     exact ⟨w', hw', hf, fun hfl h1 => by rw [hr hfl]; exact h1⟩
@@ -579,7 +583,11 @@ theorem refW_ok {st : St} (inv : SInv gh st) {win : Nat} {ww : Win} (hw : LiveW 
   simp only [getW, setX_tree, get_live hw, bind_ok, pure_ok]
   refine ⟨_, rfl, ?_⟩
   obtain ⟨inv', _⟩ := inv.tinv.set_refcount hw (ww.refcount + 1)
-  refine ⟨inv1.of_tree (t' := WinTree.set st.tree win { ww with refcount := ww.refcount + 1 }) inv' (set_size _ _ _) ?_, ?_⟩
+  refine ⟨inv1.of_tree (t' := WinTree.set st.tree win { ww with refcount := ww.refcount + 1 }) inv' (set_size _ _ _) ?_, ?_, fun hg => by
+    obtain ⟨r, hr⟩ := inv.glive hg
+    by_cases h0 : win = 0
+    · subst h0; exact ⟨_, set_get_self _ hw.lt, hw.2⟩
+    · exact ⟨r, by show (WinTree.set st.tree win _).wins[0]? = some r; rw [set_get_ne _ h0]; exact hr.1, hr.2⟩⟩
   · intro i w hwi
     simp only [setX_tree] at hwi
     by_cases hi : win = i
